@@ -847,7 +847,7 @@ func (fr *Frame) loopHeader(h *ssa.BasicBlock, cond T, st *State) (T, *State) {
 	if lc != nil {
 		for i, inv := range lc.Invariants {
 			g := ev.evalBool(inv.E)
-			vc.oblige("inv-init", fmt.Sprintf("loop%d.%d", ord, i), inv.Src, inv.Tags, fr.headerPosStr(h), cond, g)
+			vc.oblige("inv-init", invLabel(ord, i, inv), inv.Src, inv.Tags, fr.headerPosStr(h), cond, g)
 		}
 	}
 	// dry run to collect writes
@@ -974,6 +974,14 @@ func (fr *Frame) loopHeader(h *ssa.BasicBlock, cond T, st *State) (T, *State) {
 	return cond, st
 }
 
+// invLabel names an invariant obligation by its tag when it has one (stable under reordering).
+func invLabel(ord, i int, inv *Clause) string {
+	if len(inv.Tags) > 0 {
+		return fmt.Sprintf("loop%d.%s", ord, inv.Tags[0])
+	}
+	return fmt.Sprintf("loop%d.%d", ord, i)
+}
+
 func globSortGuess(pre *State, rec *writeRec, k string, vc *VC) Sort {
 	if v, ok := pre.glob[k]; ok {
 		return v.Sort
@@ -1033,7 +1041,7 @@ func (fr *Frame) backEdge(h *ssa.BasicBlock, cond T, st *State) {
 	ev.loopPre = fr.loopPre[h]
 	for i, inv := range lc.Invariants {
 		g := ev.evalBool(inv.E)
-		vc.oblige("inv-pres", fmt.Sprintf("loop%d.%d", ord, i), inv.Src, inv.Tags, fr.headerPosStr(h), cond, g)
+		vc.oblige("inv-pres", invLabel(ord, i, inv), inv.Src, inv.Tags, fr.headerPosStr(h), cond, g)
 	}
 	if lc.Decreases != nil {
 		m0, ok := fr.loopDec[h]
